@@ -442,8 +442,10 @@ def run(ctx):
         'oracle: harness/props/c01_oracle.py evaluates the UN-finalized forest with numpy (long double) at Gauss nodes computed in the '
         'driver (numpy leggauss), basis jets from bspline.collocation_derivs (C02), geometry jets from grid_eval/grid_jacobian/'
         'grid_hessian (C07); bound 1e-10 * running magnitude (sum of |terms| through every operation)',
-        'entries whose oracle value is not finite (sqrt/log of a negative number, division by a basis function) are skipped; forms '
-        'that are not (bi)linear are compared on the joint support only (implementation-defined there)',
+        'entries whose oracle value is not finite (sqrt/log of a negative number, division by a basis function) are skipped; the '
+        'reference of every entry is the oracle sum over the joint support (what entry_impl is proved to loop over); that it equals '
+        'the sum over ALL Gauss nodes is checked numerically per entry (terms outside the support vanish) and counted as '
+        'compared_full, entries of forms that are not (bi)linear in the basis functions are counted as nonlinear',
     ]
     stats = collections.Counter()
 
